@@ -593,6 +593,8 @@ class IndexVal:
             if a.space is b.space:
                 i = _i()
                 return SBool(z3.ForAll([i], a.sel(i) == b.sel(i)))
+            if getattr(a, "foreign_index", False) or getattr(b, "foreign_index", False):
+                return False  # declared by the contract: an object whose index differs from every other object's
             return SBool(z3.Bool(cur().fresh_name("index_equals")))
         return False
 
@@ -913,6 +915,29 @@ class FrameVal:
             r.buffer_root = getattr(self, "buffer_root", None) or self
         return r
 
+    # ---- row-wise views used by the check back end ------------------------------------------------------
+    def row_all_null(self, i):
+        """z3: every column of row i is null (one uninterpreted predicate per frame: the contracts relate outputs to it, not to the cells)"""
+        if getattr(self, "_row_all_null", None) is None:
+            self._row_all_null = z3.Function(cur().fresh_name("row_all_null"), z3.IntSort(), z3.BoolSort())
+        return self._row_all_null(i)
+
+    def isna(self):
+        return _FrameIsNa(self)
+
+    def apply(self, fn, axis=0, **kw):
+        """DataFrame.apply(fn, axis=1): fn over the rows - recorded, not evaluated (result[i] = fn(row i))"""
+        if axis not in (1, "columns"):
+            raise Unsupported("DataFrame.apply(axis=0)")
+        r = SeriesVal.fresh("row_wise_output", "any", nullable=False, space=self.space).derive(sel=self._sel)
+        r.row_map = (self, fn, axis)
+        return r
+
+    @property
+    def empty(self):
+        i = _i()
+        return SBool(z3.Not(z3.Exists([i], self.sel(i))))
+
     def duplicated(self, subset=None, keep="first"):
         """DataFrame.duplicated(subset, keep): row i is marked iff another selected row (earlier / later / any, by `keep`) agrees with it
         on every column of `subset` (NaN equal to NaN)."""
@@ -973,6 +998,21 @@ class FrameVal:
 # --------------------------------------------------------------------------------------
 
 label_truthy = z3.Function("label_truthy", L, z3.BoolSort())
+
+
+class _FrameIsNa:
+    """DataFrame.isna(): only its row-wise conjunction is modelled"""
+
+    __pyvc_symbolic__ = True
+
+    def __init__(self, frame):
+        self.frame = frame
+
+    def all(self, axis=0, **kw):
+        if axis not in (1, "columns"):
+            raise Unsupported("DataFrame.isna().all(axis=0)")
+        f = self.frame
+        return SeriesVal(f.space, lambda i: SBool(f.row_all_null(i)), lambda i: z3.BoolVal(False), f._sel, None, "bool", bool)
 
 
 class ColumnsVal:
